@@ -225,7 +225,10 @@ Section StreamQueries.
   Let shdrs := es_shdrs es.
   Let phdrs := es_phdrs es.
   Definition is_nil {T} (l : list T) : bool := match l with [] => true | _ => false end.
-  Definition nth_n {T} (l : list T) (i : N) : option T := nth_error l (N.to_nat i).
+  (* Vec indexing by a file-supplied index: walks the list, never builds a unary number of the
+     index's size (nth_n_eq in Proofs/StreamP.v: it is nth_error at N.to_nat i) *)
+  Fixpoint nth_n {T} (l : list T) (i : N) : option T :=
+    match l with [] => None | x :: t => if i =? 0 then Some x else nth_n t (N.pred i) end.
   Definition prange (h : shdr) : prog (N * N) := plift (sh_range h).
 
   Definition q_shstrtab : prog (option buf) :=
